@@ -272,6 +272,9 @@ func runShard(c *Check, bin, work, tier string, shard, n int, replay string, bud
 	env := append(os.Environ(),
 		"VERIF_OUT="+out, "VERIF_TIER="+tier, "VERIF_SHARD="+strconv.Itoa(shard), "VERIF_NSHARDS="+strconv.Itoa(n),
 		"VERIF_BUDGET_S="+strconv.Itoa(budget), "VERIF_SEED="+seed, "GOMAXPROCS=2", "VERIF_ROOT="+verifRoot, "VERIF_REPO="+repoRoot)
+	if len(c.Instrument) > 0 {
+		env = append(env, "GOMAXPROCS=1") // cooperative scheduler: hand-offs on one P are cheapest
+	}
 	if c.Race {
 		env = append(env, "GORACE=halt_on_error=0 log_path="+filepath.Join(work, fmt.Sprintf("race-%d", shard)))
 	}
@@ -627,6 +630,7 @@ func runCheck(c *Check, tier, replay string, keep bool, shardsOverride int) int 
 		fmt.Fprintf(os.Stderr, "HARNESS-ERROR property=%s:\n%s\n", c.ID, strings.Join(errs, "\n"))
 		return 2
 	}
+	fmt.Printf("merged: evaluations=%d states=%d transitions=%d outcomes=%d violations=%d counters=%v caps=%v\n", merged.Evaluations, merged.States, merged.Transitions, merged.Outcomes, merged.NViolations, merged.Counters, merged.Caps)
 	for _, rq := range merged.Required {
 		if merged.Counters[rq] == 0 {
 			fmt.Fprintf(os.Stderr, "HARNESS-ERROR property=%s: vacuous run, coverage counter %q is zero\n", c.ID, rq)
